@@ -257,7 +257,7 @@ HashOrder(c, v) == SortedSeq(HashFed(c, v))           \* declaration order
 \* what educe writes itself before the fields: the 0-based variant index as a
 \* usize for enums, nothing for structs.  (Impl-level detail; the verdict
 \* predicate does not depend on it.)
-ImplPrefix(c, v) == IF c.kind = "enum" THEN <<"usize:" \o ToString(v - 1)>> ELSE <<>>
+ImplPrefix(c, v) == IF c.kind = "enum" THEN <<"w8:" \o ToString(v - 1)>> ELSE <<>>    \* ("w8": any 8-byte integer write)
 
 RECURSIVE FieldFeeds(_, _, _)
 FieldFeeds(c, a, order) ==
@@ -346,10 +346,15 @@ HasCloneMethod(c) ==
 \* clone returns a bitwise copy."
 Bitwise(c) == HasTrait(c, "Copy") /\ ~HasCloneMethod(c)
 
+\* A field declared as a shared reference (`&'static P`): its own Clone copies the reference -- the referent is
+\* the same probe, untouched (generation GOrig), and the probe's Clone is not called.  A custom method still rules.
+RefOwn(c, v, i) == c.variants[v].fields[i].ty = "ref" /\ CloneVia(c, v, i) # Method
+
 \* generations admissible for field i of the result of `op`
 CloneGens(c, v, i, op) ==
   IF Bitwise(c) THEN {GOrig}
   ELSE IF CloneVia(c, v, i) = Method THEN {GMethod}
+  ELSE IF RefOwn(c, v, i) THEN {GOrig}
   ELSE IF op = "clone" THEN {GClone}
   ELSE {GClone, GCloneFrom}       \* clone_from may reuse the storage or replace it
 
@@ -364,8 +369,8 @@ PropClone(c, a, calls, res) ==
         /\ res[2][i][1] = "a" /\ res[2][i][2] = i /\ res[2][i][3] = a.f[i]
         /\ res[2][i][4] \in CloneGens(c, a.v, i, "clone")
   /\ IF Bitwise(c) THEN calls = <<>>
-     ELSE /\ Len(calls) = NFields(c, a.v)
-          /\ \A i \in FieldIdx(c, a.v) : \E j \in DOMAIN calls : calls[j] = CloneCallFor(c, a, i)
+     ELSE /\ Len(calls) = Cardinality({ i \in FieldIdx(c, a.v) : ~RefOwn(c, a.v, i) })
+          /\ \A i \in FieldIdx(c, a.v) : ~RefOwn(c, a.v, i) => \E j \in DOMAIN calls : calls[j] = CloneCallFor(c, a, i)
 
 \* --- Prop for a.clone_from(&b): judged on the final state only -- a is then
 \* indistinguishable from b.clone() (any prior a, same or different variant).
@@ -379,7 +384,7 @@ PropCloneFrom(c, a, b, res) ==
 \* --- Impl machines (one step per field).  run = [op, a, b, pc, calls, res, done];
 \* res is the list of field fingerprints built so far.
 ImplCloneField(c, src, side, i) ==
-  <<side, i, src.f[i], IF CloneVia(c, src.v, i) = Method THEN GMethod ELSE GClone>>
+  <<side, i, src.f[i], IF CloneVia(c, src.v, i) = Method THEN GMethod ELSE IF RefOwn(c, src.v, i) THEN GOrig ELSE GClone>>
 
 ImplCloneStep(c, r) ==
   IF Bitwise(c)
@@ -388,7 +393,7 @@ ImplCloneStep(c, r) ==
   ELSE IF r.pc > NFields(c, r.a.v) THEN [r EXCEPT !.done = TRUE, !.resv = r.a.v]
   ELSE [r EXCEPT !.pc = @ + 1,
                  !.res = Append(@, ImplCloneField(c, r.a, "a", r.pc)),
-                 !.calls = Append(@, CloneCallFor(c, r.a, r.pc))]
+                 !.calls = IF RefOwn(c, r.a.v, r.pc) THEN @ ELSE Append(@, CloneCallFor(c, r.a, r.pc))]
 
 \* clone_from: same variant => field-wise clone_from / method assignment;
 \* otherwise `*self = source.clone()`.  With the bitwise plan the trait's
@@ -400,6 +405,7 @@ ImplCloneFromStep(c, r) ==
   ELSE IF r.pc > NFields(c, r.b.v) THEN [r EXCEPT !.done = TRUE, !.resv = r.b.v]
   ELSE LET i == r.pc
            g == IF CloneVia(c, r.b.v, i) = Method THEN GMethod
+                ELSE IF RefOwn(c, r.b.v, i) THEN GOrig
                 ELSE IF r.a.v = r.b.v THEN GCloneFrom ELSE GClone
        IN [r EXCEPT !.pc = @ + 1, !.res = Append(@, <<"b", i, r.b.f[i], g>>)]
 
